@@ -819,7 +819,8 @@ def units_C15(tier, seed):
             U.append(dict(u, name=f'c15_{base}.san', flavour='san', diff=False, cfg=cfg))
         # -O0 code of these kernels forks per bit of a symbolic coordinate (Hilbert rotation) or per comparison of a deep
         # stack: beyond the path cap, so they are checked in the -O1 sanitizer flavour only
-        no_o0 = any(base.startswith(x) for x in ('c01_hilbert', 'c14_hilbert_curve', 'c02_stack_clamp', 'c01_api_hilbert', 'c05_conv_hilbert', 'c05_convfixed'))
+        no_o0 = any(base.startswith(x) for x in ('c01_hilbert', 'c14_hilbert_curve', 'c02_stack_clamp', 'c01_api_hilbert', 'c05_conv_hilbert', 'c05_convfixed',
+                                                'c02_adj_linear', 'c02_adj_nn', 'c02_adj_affine', 'c05_convmove_hilbert', 'c05_convmove_rowmajor_hilbert', 'c05_convmove_mortonport_hilbert'))
         if (th or i % 9 == 1) and not no_o0:
             U.append(dict(u, name=f'c15_{base}.dsan', flavour='dsan', diff=False, weight=u['weight'] * 5, cfg=cfg))
         if (th or i % 6 == 2) and u['weight'] <= 40 and not u['name'].startswith('c12_') and not no_o0:
